@@ -121,6 +121,7 @@ func vhC03ResponseFraming() {
 	status := c03Statuses[vChoose("status", len(c03Statuses))]
 	isHead := vBool("head")
 	how := vChoose("how", 6)
+	closeFirst := vBool("closeFirst")
 	req := "GET /a HTTP/1.1\r\nHost: a\r\n\r\n"
 	if isHead {
 		req = "HEAD /a HTTP/1.1\r\nHost: a\r\n\r\n"
@@ -135,6 +136,9 @@ func vhC03ResponseFraming() {
 			return
 		}
 		ctx.SetStatusCode(status)
+		if closeFirst {
+			ctx.SetConnectionClose()
+		}
 		switch how {
 		case 0:
 			ctx.SetBody(body)
@@ -171,6 +175,7 @@ func vhC03ResponseFraming() {
 	} else {
 		vAssert("body-as-built", string(rs[0].body) == string(want))
 	}
+	vAssert("close-header-as-set", rs[0].close == closeFirst)
 	if !rs[0].close {
 		vAssert("next-response-starts-where-this-ends", len(rs) == 2 && rs[1].status == 200 && string(rs[1].body) == "second" && calls == 2)
 	} else {
